@@ -903,8 +903,16 @@ def z_timeline_lemma(part, timeout):
     def decode(vals):
         return [kind, [vals["a_" + f] for f in fields], [vals.get("b_" + f, ref[f]) for f in fields]]
 
-    qs.check(f"L1 {kind}: key_code(x) - key_oracle(x) == const, |year| <= {ymax}", ka - okey(va) != cval, list(va.values()) + [z3.Int("b_" + f) for f in fields],
-             replay_fn="cmp_replay", decode=decode, assumptions=ca + [vb[f] == ref[f] for f in fields])
+    sol = z3.Solver()
+    sol.set("timeout", 60000)
+    sol.add(*ca)
+    sol.add(ka - okey(va) != cval)
+    qs.queries += 1
+    r1 = str(sol.check())
+    if r1 != "unsat":
+        # a failed lemma is not a violation by itself (a different but order-isomorphic key would be fine): the direct query decides
+        qs.unknown.append(f"L1 {kind}: key_code - key_oracle is not constant ({r1}); lemma route not applicable, z_timeline (direct) decides")
+        return qs.result({"functions": sorted(tr.functions_seen), "ymax": ymax})
     pyop = {"__lt__": op.lt, "__le__": op.le, "__eq__": op.eq, "__gt__": op.gt, "__ge__": op.ge, "__ne__": op.ne}
     for name, term in ops.items():
         qs.check(f"L2 {cls.__name__}.{name} == op(key_code(a), key_code(b))", term != pyop[name](ka, kb), zv, replay_fn="cmp_replay", decode=decode, assumptions=ca + cb)
